@@ -455,7 +455,10 @@ class Network(Cached):
 
         #  Create sparse adjacency matrix from edge list
         sp_A = sp.coo_matrix(
-            (np.ones_like(edges.T[0]), tuple(edges.T)), shape=(N, N))
+            (np.ones_like(edges.T[0]), tuple(edges.T)), shape=(N, N)).tocsc()
+        #  Links listed more than once (e.g. in both directions, as returned
+        #  by `edge_list()`) are still single links
+        sp_A.data[:] = 1
 
         #  Set sparse adjacency matrix
         self.adjacency = sp_A
